@@ -17,4 +17,6 @@ def generate(rng, tier):
             if not r.srv:
                 r.srv = [0]
     n = 1200 if tier == 'thorough' else 50
-    return pipeline.guided_cases(rng, n, pipeline.exchange_history, 'xchg', cfgmod=mod) + pipeline.cases(rng, n // 2, nops=16)
+    import focus
+    return (pipeline.guided_cases(rng, n, pipeline.exchange_history, 'xchg', cfgmod=mod) + pipeline.cases(rng, n // 2, nops=16)
+            + focus.username_restore_cases(rng, 120 if tier == 'thorough' else 12))
